@@ -60,7 +60,8 @@ static int g_maxThreads = 1;
 static std::atomic<int64_t> g_deadline(0);
 static const char * volatile g_what = "";
 static int64_t now_ms() {return std::chrono::duration_cast<std::chrono::milliseconds>(std::chrono::steady_clock::now().time_since_epoch()).count();}
-static void arm(const char * what) {g_what = what; g_deadline.store(now_ms()+HANG_SECONDS*1000);}
+static std::atomic<bool> g_alreadyFailed(false);   // an oracle failure was recorded for this case: a later hang is a consequence, do not wait long for it
+static void arm(const char * what) {g_what = what; g_deadline.store(now_ms()+(g_alreadyFailed.load() ? 10 : HANG_SECONDS)*1000);}
 static void disarm() {g_deadline.store(0);}
 static void watchdog()
 {
@@ -71,6 +72,12 @@ static void watchdog()
       if ((d != 0)&&(now_ms() > d))
       {
          printf("%d ORACLE FAIL hang %s\n", g_case, (const char *) g_what);
+         {
+            // what was found before the hang must not be lost with the process
+            std::unique_lock<std::mutex> lk(g_m, std::try_to_lock);
+            std::set<std::string> seen;
+            for (size_t i=0; i<g_fail.size(); i++) if (seen.insert(g_fail[i]).second) printf("%d ORACLE FAIL %s\n", g_case, g_fail[i].c_str());
+         }
          fflush(stdout);
          _exit(3);
       }
@@ -78,8 +85,8 @@ static void watchdog()
 }
 static void nap() {std::this_thread::sleep_for(std::chrono::microseconds(30));}
 
-static void fail_locked(const std::string & s) {g_fail.push_back(s);}   // g_m held
-static void fail(const std::string & s) {std::lock_guard<std::mutex> lk(g_m); g_fail.push_back(s);}
+static void fail_locked(const std::string & s) {g_fail.push_back(s); g_alreadyFailed.store(true);}   // g_m held
+static void fail(const std::string & s) {std::lock_guard<std::mutex> lk(g_m); fail_locked(s);}
 
 class GatedClient : public IThreadPoolClient
 {
@@ -337,7 +344,7 @@ static void run_case(int k, const std::string & line)
    }
    {
       std::lock_guard<std::mutex> lk(g_m);
-      g_freeRun = false; g_fail.clear(); g_running = 0; g_maxThreads = n;
+      g_freeRun = false; g_fail.clear(); g_alreadyFailed.store(false); g_running = 0; g_maxThreads = n;
    }
    Ctx * xp = new Ctx; Ctx & x = *xp;
    x.pool = new ThreadPool((uint32) n);
